@@ -828,6 +828,10 @@ func buildInboundClustersFromSidecar(cb *ClusterBuilder, proxy *model.Proxy,
 	_, actualLocalHosts := getWildcardsAndLocalHost(proxy.GetIPMode())
 	sidecarScope := proxy.SidecarScope
 	for _, ingressListener := range sidecarScope.Sidecar.Ingress {
+		if ingressListener.Port == nil {
+			// invalid (rejected by validation, but not every config source validates): LDS skips it as well
+			continue
+		}
 		// LDS would have setup the inbound clusters
 		// as inbound|portNumber|portName|Hostname[or]SidecarScopeID
 		listenPort := &model.Port{
